@@ -22,11 +22,11 @@ import (
 )
 
 type boundedResult struct {
-	Name        string `json:"name"`
-	Bound       string `json:"bound"`
-	Evaluations int    `json:"evaluations"`
-	Distinct    int    `json:"distinct_cases"`
-	Failures    int    `json:"failures"`
+	Name        string  `json:"name"`
+	Bound       string  `json:"bound"`
+	Evaluations int     `json:"evaluations"`
+	Distinct    int     `json:"distinct_cases"`
+	Failures    int     `json:"failures"`
 	WallS       float64 `json:"wall_s"`
 }
 
